@@ -23,6 +23,7 @@ func protoRunOnce(al map[string]Letter, run protoRun) protoOutcome {
 	res := vsched.Run(vsched.Opts{}, func(s *vsched.Sched) {
 		o = protoExec(al, run, s)
 	})
+	ConformanceCheck()
 	if res.Aborted != "" {
 		mm := &Mismatch{Op: strings.Join(run.Script, " "), Where: "process", Want: "keeps running", Got: res.Aborted + ": " + res.Msg, Class: "process-" + res.Aborted}
 		o.c11 = mm
